@@ -57,6 +57,16 @@ GetTable(st, op) ==
 ListTables(st, op) ==
   {Out(st, [ok |-> TRUE, code |-> 0, names |-> {t \in DOMAIN st.tables : st.tables[t].parent = op.parent}])}
 
+\* Consistency tokens (replication is not emulated: one cluster, always consistent). A token is bound to the name
+\* of the table it was generated for. op.tokFor is the table name the presented token was generated for, or
+\* op.genuine = FALSE for a token the service never issued. Neither request changes anything.
+GenerateToken(st, op) ==
+  IF ~HasTbl(st, op.t) THEN NotFound(st) ELSE {Out(st, [ok |-> TRUE, code |-> 0, tokFor |-> op.t])}
+CheckConsistency(st, op) ==
+  IF ~HasTbl(st, op.t) THEN NotFound(st)
+  ELSE IF op.genuine /\ op.tokFor = op.t THEN {Out(st, [ok |-> TRUE, code |-> 0, consistent |-> TRUE])}
+  ELSE {Out(st, ErrCode(InvalidArgCode))}
+
 DeleteTable(st, op) ==
   IF ~HasTbl(st, op.t) THEN NotFound(st)
   ELSE {Out([st EXCEPT !.tables = [x \in (DOMAIN st.tables) \ {op.t} |-> st.tables[x]]], OkResp)}
@@ -208,6 +218,8 @@ Step(st, op) ==
     [] op.ev = "GetTable"      -> GetTable(st, op)
     [] op.ev = "ListTables"    -> ListTables(st, op)
     [] op.ev = "DeleteTable"   -> DeleteTable(st, op)
+    [] op.ev = "GenerateToken" -> GenerateToken(st, op)
+    [] op.ev = "CheckConsistency" -> CheckConsistency(st, op)
     [] op.ev = "ModifyFamilies" -> ModifyFamilies(st, op)
     [] op.ev = "DropRowRange"  -> DropRowRange(st, op)
     [] op.ev = "MutateRow"     -> MutateRow(st, op)
